@@ -39,7 +39,7 @@ StepWhy(s, ev, step) ==
   IN IF \E c \in Classes, p \in RegProps : Proj(t.cls[<<c, p>>]) # al.cls[Key2(c, p)] THEN "cls"
      ELSE IF {Key3(x[1], x[2], x[3]) : x \in t.inst} # ToSet(al.inst) THEN "inst"
      ELSE IF \E T \in DOMAIN al.tp : T \notin Tables \/ t.tp[T] # ToSet(al.tp[T]) THEN "tp"
-     ELSE IF ev.op \in {"read", "probe", "init"} /\ Outcome(s, ev) # step.out.cls THEN "out"
+     ELSE IF ev.op \in {"read", "probe", "init", "reload"} /\ Outcome(s, ev) # step.out.cls THEN "out"
      ELSE "ok"
 RECURSIVE DriftAt(_, _, _)
 DriftAt(s, h, i) == IF i > Len(h.events) THEN [step |-> 0, why |-> "ok"]
@@ -75,7 +75,7 @@ StepViol(h, i) ==
        [] ev.op = "calc" ->
             IF ~SameObs(out, CanonRec.calc[ev.c])
             THEN {[step |-> i, clause |-> "CalcIsCanonical", got |-> out.cls, want |-> CanonRec.calc[ev.c].cls]} ELSE {}
-       [] ev.op \in {"init", "create", "import", "assign"} ->
+       [] ev.op \in {"init", "reload", "create", "import", "assign"} ->
             IF out.cls # "ok" THEN {[step |-> i, clause |-> "EventRaised", got |-> out.cls, want |-> "ok"]} ELSE {}
        [] ev.op \in {"parse", "pickle"} ->
             IF out.cls # "T" THEN {[step |-> i, clause |-> "AtomsBelongToTable", got |-> out.cls, want |-> "T"]} ELSE {}
